@@ -27,7 +27,8 @@ Reading (trusted):
   logger.<anything>(...), docstrings   skipped
 The constructors from_list_genedata_dir_and_hdf5_dir and from_list_gene_data_and_hdf5_dir must return a list comprehension
 over cls._pair_by_chromosome(<files>, <gene data>, logger) that builds one object per pair; which component of the pair goes
-to which argument of the object is emitted (gen_dir_constructed, gen_regex_constructed).
+to which argument of the object is emitted (gen_dir_constructed, gen_regex_constructed). examples/general_read_density_data.py must build its
+readers through exactly one call of one of these two constructors and through nothing else (gen_example_constructed).
 Fail-closed: anything else aborts with exit status 2 and the generated file does not type-check.
 """
 import ast, os, sys
@@ -334,6 +335,19 @@ def translate(repo):
         how, files, gds = constructed(find_method(tree, meth))
         out.append("(* %s: one object per pair of _pair_by_chromosome(%s, %s, logger): (result file, gene annotation) it is built from *)" % (meth, files, gds))
         out.append("Definition %s (ps : list (nat * nat)) : list (nat * nat) := map (fun p => %s) ps." % (name, how))
+    # the reader example: its DensityData objects come from one of the two directory constructors, nothing else pairs files with annotations
+    ex = "examples/general_read_density_data.py"
+    etree = ast.parse(open(os.path.join(repo, ex)).read())
+    made = [n for n in ast.walk(etree) if isinstance(n, ast.Call) and (U(n.func) in ("DensityData", "DensityData.verify_h5_cache") or
+            (isinstance(n.func, ast.Attribute) and n.func.attr in ("verify_h5_cache",)))]
+    if made:
+        raise Unsupported("%s:%s: the example builds DensityData objects itself instead of through a directory constructor" % (ex, made[0].lineno))
+    calls = [U(n.func) for n in ast.walk(etree) if isinstance(n, ast.Call) and U(n.func).startswith("DensityData.from_list_")]
+    if len(calls) != 1 or calls[0] not in ("DensityData.from_list_gene_data_and_hdf5_dir", "DensityData.from_list_genedata_dir_and_hdf5_dir"):
+        raise Unsupported("%s: expected exactly one call of a directory constructor of DensityData, found %s" % (ex, calls))
+    out.append("(* %s builds its readers with %s and in no other way *)" % (ex, calls[0]))
+    out.append("Definition gen_example_constructed (ps : list (nat * nat)) : list (nat * nat) := %s ps." %
+               ("gen_regex_constructed" if calls[0].endswith("from_list_gene_data_and_hdf5_dir") else "gen_dir_constructed"))
     return out
 
 
